@@ -13,6 +13,17 @@
 extern "C" {
 #include "cat.h"
 }
+#if defined(__has_include)
+#if __has_include(<valgrind/memcheck.h>)
+#include <valgrind/memcheck.h>
+#define HAVE_MEMCHECK 1
+#endif
+#endif
+#ifndef HAVE_MEMCHECK
+#define RUNNING_ON_VALGRIND 0
+#define VALGRIND_MAKE_MEM_UNDEFINED(p, n) ((void)0)
+#define VALGRIND_MAKE_MEM_DEFINED(p, n) ((void)0)
+#endif
 
 static_assert((int)CAT_RETURN_STATE_ERROR == RC_ERROR && (int)CAT_RETURN_STATE_DATA_OK == RC_DATA_OK && (int)CAT_RETURN_STATE_DATA_NEXT == RC_DATA_NEXT && (int)CAT_RETURN_STATE_NEXT == RC_NEXT &&
                   (int)CAT_RETURN_STATE_OK == RC_OK && (int)CAT_RETURN_STATE_HOLD == RC_HOLD && (int)CAT_RETURN_STATE_HOLD_EXIT_OK == RC_HOLD_EXIT_OK &&
@@ -150,6 +161,7 @@ struct Engine : MemView {
         void join_others();
         bytes iso_ev, iso_cmd;
         bool other_on = false; // second parser instance (plan.other)
+        bool on_valgrind = false; // harness-side peeks at library memory are switched off
         void other_step_hook();
         // livelock detection
         uint64_t last_state_hash = 0;
@@ -1119,6 +1131,15 @@ void Engine::materialise()
                 for (int i = 0; i < 5; i++)
                         other_step(s_other); // it is usually in the middle of a line
         }
+        // under valgrind (C03 spot runs) everything the application does not initialise is undefined: the object
+        // before cat_init and the working buffers; a use of such bytes by cat.c is then reported
+        on_valgrind = RUNNING_ON_VALGRIND != 0;
+        if (on_valgrind) {
+                VALGRIND_MAKE_MEM_UNDEFINED(obj, sizeof(struct cat_object));
+                VALGRIND_MAKE_MEM_UNDEFINED(bufblk.p, bufblk.size);
+                if (!plan.shared && ubufblk.size)
+                        VALGRIND_MAKE_MEM_UNDEFINED(ubufblk.p, ubufblk.size);
+        }
         cat_init(obj, &desc, &io, plan.mutex ? &mtx : nullptr);
         ls_protect(true);
 }
@@ -1318,7 +1339,7 @@ void Engine::check_ro()
 
 void Engine::cover()
 {
-        if (!opts.coverage)
+        if (!opts.coverage || on_valgrind)
                 return;
         int s[4] = {0, 0, 0, 0};
         bool unprot = ls_on && depth == 0;
@@ -1358,7 +1379,7 @@ int Engine::service_once()
         uint64_t cb0 = callbacks;
         // half-isolation (C03): with a shared buffer, the half of a state machine that has nothing to do
         // must not change during this call, whatever the other machine does
-        bool iso = plan.shared && mon.model_ok() && !mon.viol.set() && !ls_on;
+        bool iso = plan.shared && mon.model_ok() && !mon.viol.set() && !ls_on && !on_valgrind;
         bool ev_idle0 = false, cmd_idle0 = false, held0 = false;
         uint64_t acc0 = 0, rx0 = 0;
         if (iso) {
@@ -1400,7 +1421,7 @@ int Engine::service_once()
         }
         // exact livelock detection: a BUSY call that made no callback and left object and
         // buffers unchanged can never make progress (outside a hold)
-        if (st == CAT_STATUS_BUSY && callbacks == cb0 && mon.model_ok() && !mon.held() && !mon.dead()) {
+        if (st == CAT_STATUS_BUSY && callbacks == cb0 && mon.model_ok() && !mon.held() && !mon.dead() && !on_valgrind) {
                 uint64_t h = mem_hash();
                 if (last_state_valid && h == last_state_hash)
                         mon.fail("C15", "livelock", "cat_service returned BUSY twice in a row without invoking any callback and without changing the parser object or buffers");
@@ -1635,6 +1656,8 @@ void Engine::exec(const Op &o)
                 break;
         case OP_FRESH:
                 ls_protect(false);
+                if (on_valgrind)
+                        VALGRIND_MAKE_MEM_UNDEFINED(obj, sizeof(struct cat_object));
                 cat_init(obj, &desc, &io, plan.mutex ? &mtx : nullptr);
                 ls_protect(true);
                 std::fill(sp.begin(), sp.end(), (size_t)0);
